@@ -426,7 +426,7 @@ def _covr(name, lvl, cls, coverage, errs):
 
 
 def evaluate(real: Real, traces: list[ExecutionTrace], exs: list[dict], pal, *, case_level: bool,
-             suite: tsc.TestSuiteChromosome | None = None) -> dict:
+             suite: tsc.TestSuiteChromosome | None = None, chrom: tcc.TestCaseChromosome | None = None) -> dict:
     """Call every fitness / coverage function on the suite whose tests produced *traces*.
 
     case_level: additionally treat the single trace as the result of one test case (test case
@@ -479,7 +479,8 @@ def evaluate(real: Real, traces: list[ExecutionTrace], exs: list[dict], pal, *, 
     # ---- test case level classes and goals (coveragegoals.py, controlflowdistance.py)
     if case_level:
         assert len(traces) == 1
-        chrom = tcc.TestCaseChromosome(test_case=StubTestCase(results[0]))
+        if chrom is None:
+            chrom = tcc.TestCaseChromosome(test_case=StubTestCase(results[0]))
         fn = ff.BranchDistanceTestCaseFitnessFunction(ex_, 0)
         fits.append(_fit("BDCase", "case", "branch", 0,
                          call(fn.compute_fitness, chrom), call(fn.compute_is_covered, chrom), errs))
@@ -580,3 +581,89 @@ def merge_event(real: Real, traces: list[ExecutionTrace]) -> dict:
                 projs.append(raw_projection(m, real))
             how.append(g + ":" + "".join(map(str, perm)))
     return _event("merge", real, [], EMPTY_EVAL, EMPTY_EVAL, projs, how)
+
+
+# ----------------------------------------------------------------------------- real search runs
+NOEX = {"code": [], "tr": [], "fa": []}
+
+
+class SearchReal:
+    """View on the SubjectProperties / executor of a running search with the interface of Real.
+    Abstract ids: predicate p = real id + 1, line l = real id + 1, code object c = real id + 1."""
+
+    def __init__(self, sp: SubjectProperties, executor):
+        self.sp = sp
+        self.executor = executor
+        self.pred = {p + 1: p for p in sp.existing_predicates}
+        self.co = {c + 1: c for c in sp.existing_code_objects}
+        self.line = {ln + 1: ln for ln in sp.existing_lines}
+        self.co_inv = {v: k for k, v in self.co.items()}
+        self.pred_inv = {v: k for k, v in self.pred.items()}
+        self.line_inv = {v: k for k, v in self.line.items()}
+        preds = sorted(sp.existing_predicates)
+        contiguous = preds == list(range(len(preds)))
+        self.reg = {"np": len(preds), "nl": len(sp.existing_lines), "cos": sorted(self.co),
+                    "bl": sorted(c + 1 for c in sp.branch_less_code_objects),
+                    "own": [sp.existing_predicates[p].code_object_id + 1 for p in preds],
+                    "diam": [int(sp.existing_code_objects[sp.existing_predicates[p].code_object_id].cfg.diameter)
+                             for p in preds],
+                    "cdg": [], "contiguous": contiguous}
+
+
+def _attached_ex(fn, real) -> dict:
+    return {"code": sorted(real.co_inv[c] for c in fn._excluded_code_objects),  # noqa: SLF001
+            "tr": sorted(real.pred_inv[p] for p in fn._excluded_true_predicates),  # noqa: SLF001
+            "fa": sorted(real.pred_inv[p] for p in fn._excluded_false_predicates)}  # noqa: SLF001
+
+
+def search_events(algorithm, best, max_cases: int = 8) -> list[dict]:
+    """Events for the best suite of a real search iteration: the suite (its own fitness / coverage
+    function objects and fresh ones) and its first test cases (test case level functions, goals)."""
+    executor = algorithm.executor
+    real = SearchReal(executor.subject_properties, executor)
+    pal = (-1.0, -1.0)  # no float is a palette value: abstract projection is never exact
+    suite = best.clone()
+    results = [c.get_last_execution_result() for c in suite.test_case_chromosomes]
+    if any(r is None for r in results):  # not executed yet: let the real executor run them now
+        ff.TestSuiteBranchCoverageFunction(executor).compute_coverage(suite)
+        results = [c.get_last_execution_result() for c in suite.test_case_chromosomes]
+    traces = [r.execution_trace for r in results]
+    exs = [NOEX]
+    attached = []
+    for fn in suite.get_fitness_functions():
+        if isinstance(fn, ff.BranchDistanceTestSuiteFitnessFunction):
+            ex = _attached_ex(fn, real)
+            if ex not in exs:
+                exs.append(ex)
+            attached.append((fn, "branch", exs.index(ex)))
+        elif isinstance(fn, ff.LineTestSuiteFitnessFunction):
+            attached.append((fn, "line", 0))
+        elif isinstance(fn, ff.StatementCheckedTestSuiteFitnessFunction):
+            attached.append((fn, "checked", 0))
+    ev = evaluate(real, traces, exs, pal, case_level=False, suite=suite)
+    for fn, cls, x in attached:
+        ev["fits"].append(_fit("attached:" + type(fn).__name__, "suite", cls, x,
+                               call(fn.compute_fitness, suite), call(fn.compute_is_covered, suite), ev["errs"]))
+    for cf_ in suite.get_coverage_functions():
+        kind = {"TestSuiteBranchCoverageFunction": "branch", "TestSuiteLineCoverageFunction": "line",
+                "TestSuiteStatementCheckedCoverageFunction": "checked"}.get(type(cf_).__name__, "assertion")
+        ev["covs"].append(_covr("attached:" + type(cf_).__name__, "suite", kind,
+                                call(cf_.compute_coverage, suite), ev["errs"]))
+    out = [_event("eval", real, exs, EMPTY_EVAL, ev)]
+    for chrom, res in list(zip(suite.test_case_chromosomes, results))[:max_cases]:
+        single = tsc.TestSuiteChromosome()
+        single.add_test_case_chromosome(chrom)
+        cev = evaluate(real, [res.execution_trace], [NOEX], pal, case_level=True, suite=single, chrom=chrom)
+        for fn in chrom.get_fitness_functions():
+            goal = getattr(fn, "goal", None)
+            if goal is None or not isinstance(fn, bg.BranchCoverageTestFitness):
+                continue
+            if goal.is_branch:
+                g = {"k": "br", "gc": real.co_inv[goal.code_object_id], "gp": real.pred_inv[goal.predicate_id],
+                     "gb": bool(goal.value), "gl": 0}
+            else:
+                g = {"k": "bl", "gc": real.co_inv[goal.code_object_id], "gp": 0, "gb": False, "gl": 0}
+            cev["goals"].append(_fit("attached:GoalFit", "goal", "goal", 0, call(fn.compute_fitness, chrom),
+                                     call(fn.compute_is_covered, chrom), cev["errs"], g))
+        out.append(_event("eval", real, [NOEX], EMPTY_EVAL, cev))
+    return out
